@@ -11,6 +11,7 @@ import (
 	"strings"
 	"time"
 
+	"github.com/sdcio/cache/proto/cachepb"
 	"github.com/sdcio/data-server/pkg/config"
 	"github.com/sdcio/data-server/pkg/datastore"
 	"github.com/sdcio/data-server/pkg/datastore/types"
@@ -246,6 +247,10 @@ type IntentOp struct {
 
 type Step struct {
 	Intents []IntentOp `json:"intents"`
+	// Drift (only honoured by checks that say so): before the step the device loses these leaves behind the server's
+	// back and a sync removes them from the running store (indices into the sorted non-key leaf paths the device holds;
+	// -1 = all of them)
+	Drift []int `json:"drift,omitempty"`
 }
 
 // (HistCase.GNMI: "" or the encoding of a real gNMI target that receives every change next to the recording device)
@@ -1128,6 +1133,62 @@ func (h *HistEnv) SubmitStep(st Step) *StepResult {
 	}
 	res.OK = true
 	return res
+}
+
+// ApplyDrift performs the device-side loss a step asks for; returns the paths that went away.
+func (h *HistEnv) ApplyDrift(st Step) []string {
+	if len(st.Drift) == 0 {
+		return nil
+	}
+	var cand []string
+	for _, k := range h.Dev.Snapshot().SortedKeys() {
+		if !MustCanon(k).IsKeyLeaf() {
+			cand = append(cand, k)
+		}
+	}
+	pick := map[string]bool{}
+	for _, i := range st.Drift {
+		if i < 0 {
+			for _, k := range cand {
+				pick[k] = true
+			}
+		} else if len(cand) > 0 {
+			pick[cand[i%len(cand)]] = true
+		}
+	}
+	var gone []string
+	var paths []IPath
+	for _, k := range cand {
+		if pick[k] {
+			gone = append(gone, k)
+			paths = append(paths, MustCanon(k))
+			h.Dev.Drop(MustCanon(k))
+		}
+	}
+	// list entries that lost their last leaf go away with their keys
+	left := h.Dev.Snapshot()
+	for _, k := range left.SortedKeys() {
+		p := MustCanon(k)
+		if !p.IsKeyLeaf() {
+			continue
+		}
+		entry := p[:len(p)-1]
+		alive := false
+		for o := range left {
+			q := MustCanon(o)
+			if !q.IsKeyLeaf() && entry.Covers(q) {
+				alive = true
+			}
+		}
+		if !alive {
+			h.Dev.Drop(p)
+			paths = append(paths, p)
+		}
+	}
+	if err := DeleteFromStore(h.Ctx, h.Env.Cache, h.DSName, cachepb.Store_CONFIG, paths); err != nil {
+		panic(err)
+	}
+	return gone
 }
 
 // RunStep resolves, submits and (on success) confirms one step and updates the model.
